@@ -372,6 +372,8 @@ VALIDATE = [
     ("kmoving", {"rof": "3"}, _render_kmoving, {"forceConstant": "2.0", "targetForceConstant": "4.0", "targetNumSteps": "4", "targetNumStages": "2"}, {}, {}, None),
     ("kmoving", {"rof": "3"}, _render_kmoving, {"forceConstant": "2.0", "targetForceConstant": "4.0", "targetNumSteps": "4"}, {"lambdaSchedule": ["0", "0.5", "1"]}, {}, None),
     ("kmoving", {"rof": "3"}, _render_kmoving, {"forceConstant": "2.0", "targetNumSteps": "4", "targetNumStages": "2"}, {}, {"decoupling": "on"}, None),
+    ("kmoving", {"rof": "3"}, _render_kmoving, {"forceConstant": "2.0", "targetForceConstant": "4.0", "targetNumSteps": "4", "lambdaExponent": "2"}, {}, {}, None),
+    ("kmoving", {"rof": "3"}, _render_kmoving, {"forceConstant": "2.0", "lambdaExponent": "2"}, {}, {}, None),
 ]
 VALIDATE_VALUES = ["0", "-1", "1", "2", "3", "0.5", "-0.5", "2147483647", "1e300", "1e-300", "nan", "inf", "-", "4294967296"]
 
